@@ -110,7 +110,11 @@ func runWitnesses(c *Ctx, p *PropInfo) {
 		vc.RunRule(w.Rule, f)
 		fresh := 0
 		var first string
+		invalid := ""
 		for k := range findingKeys(vc, w.Rule) {
+			if strings.HasPrefix(k, "panic|") {
+				invalid = k
+			}
 			if !base[k] {
 				fresh++
 				if first == "" {
@@ -119,6 +123,10 @@ func runWitnesses(c *Ctx, p *PropInfo) {
 			}
 		}
 		c.cur = "witness"
+		if invalid != "" {
+			c.Bad("witness:"+w.Rule+":"+w.Name, w.File, "sensitivity witness does not load/type-check (checker self-test bug, not a verdict on /repo): "+trunc(invalid, 300), "")
+			continue
+		}
 		if fresh > 0 {
 			detected++
 			c.Ok("witness:"+w.Rule+":"+w.Name, w.File, fmt.Sprintf("mutation detected (%d new findings, e.g. %s); would break: %s", fresh, trunc(first, 160), w.Breaks))
